@@ -13,6 +13,10 @@ the escaping inputs are now proved to be rejected with nothing touched
 
 `Touched fs fs' Q` : the two filesystems differ only in entries whose path satisfies `Q`.
 
+Across a `reopen` that changes `temp`, the clear of the old path uses the OLD setting
+(`reopen_to_temp_keeps_siblings`); when the old path is additionally reused the settings and the path disagree
+afterwards (`reuse_with_temp_flip_clears_holding_dir`, known finding C29-K2).
+
 Second clause of the property, "temp resources are removed": FALSE for the top of the
 temporary tree — `temp_clear_leaves_tempdir` (known finding C29-K1, DESIGN F44); what
 `close(clear=True)` does remove, and that it removes nothing else, is `clear_within_path`.
@@ -125,30 +129,31 @@ theorem clear_within_path (c : Cfg) (fs fs' : FS) (p : P) (h : clearPath c fs (s
       · exact ⟨rmtree_subset _ _ _ h, rmtree_touched _ _ _ _ hQ h⟩
   · cases h; exact ⟨fun _ he => he, Touched.refl _ _⟩
 
-/-! ### every history of `reopen` / `close` calls -/
+/-! ### every history of `reopen` / `close` calls, including calls that change `temp` and `fext` -/
 
-/-- inside the Filer's own head directory: below `headDirPath`, or (temp) below one of its `mkdtemp` directories -/
+/-- inside the Filer's own head directories: below `headDirPath`, or below one of its `mkdtemp` directories -/
 def InHead (c : Cfg) (x : P) : Prop :=
-  if c.temp then ∃ k, c.tempHead ++ [tmpSeg k] <+: x else c.head <+: x
+  c.head <+: x ∨ ∃ k, c.tempHead ++ [tmpSeg k] <+: x
 
-/-- what a history keeps true: the directories above the head (the temp head itself when temp) exist, and
-`.path`, once set, lies strictly inside the head -/
+/-- what a history keeps true: neither head lies inside the other (static), the directories above the head and the
+temp head itself exist, and `.path`, once set, lies strictly inside a head -/
 def Inv (c : Cfg) (s : St) : Prop :=
-  (if c.temp then ∀ q, q <+: c.tempHead → q ≠ [] → kind? s.fs q ≠ none else HeadOk s.fs c.head) ∧
+  (¬ c.tempHead <+: c.head ∧ ¬ c.head <+: c.tempHead) ∧
+  HeadOk s.fs c.head ∧ (∀ q, q <+: c.tempHead → q ≠ [] → kind? s.fs q ≠ none) ∧
   ∀ p, s.path = some p → InHead c (dirname p)
 
 theorem InHead.mono {c : Cfg} {x y : P} (h : InHead c x) (hxy : x <+: y) : InHead c y := by
-  unfold InHead at *
-  split
-  · rename_i ht; simp only [ht, ↓reduceIte] at h; obtain ⟨k, hk⟩ := h; exact ⟨k, hk.trans hxy⟩
-  · rename_i ht; simp only [ht, ↓reduceIte] at h; exact h.trans hxy
+  rcases h with h | ⟨k, h⟩
+  · exact Or.inl (h.trans hxy)
+  · exact Or.inr ⟨k, h.trans hxy⟩
 
 theorem prefix_antisymm {a b : P} (h1 : a <+: b) (h2 : b <+: a) : a = b :=
   List.IsPrefix.eq_of_length_le h1 h2.length_le
 
 theorem base_preserved (c : Cfg) (fs fs' : FS) (ht : Touched fs fs' (InHead c))
-    (h : if c.temp then ∀ q, q <+: c.tempHead → q ≠ [] → kind? fs q ≠ none else HeadOk fs c.head) :
-    if c.temp then ∀ q, q <+: c.tempHead → q ≠ [] → kind? fs' q ≠ none else HeadOk fs' c.head := by
+    (hap : ¬ c.tempHead <+: c.head ∧ ¬ c.head <+: c.tempHead)
+    (h : HeadOk fs c.head ∧ (∀ q, q <+: c.tempHead → q ≠ [] → kind? fs q ≠ none)) :
+    HeadOk fs' c.head ∧ (∀ q, q <+: c.tempHead → q ≠ [] → kind? fs' q ≠ none) := by
   have keep : ∀ q, ¬ InHead c q → kind? fs q ≠ none → kind? fs' q ≠ none := by
     intro q hn hk
     cases hk' : kind? fs q with
@@ -157,23 +162,15 @@ theorem base_preserved (c : Cfg) (fs fs' : FS) (ht : Touched fs fs' (InHead c))
       rcases (ht (q, k)).2 (kind?_some_mem hk') with hm | hm
       · exact kind?_ne_none_of_mem hm
       · exact absurd hm hn
-  split
-  · rename_i htemp
-    simp only [htemp, ↓reduceIte] at h
-    intro q hq hne
-    refine keep q ?_ (h q hq hne)
-    simp only [InHead, htemp, ↓reduceIte]
-    rintro ⟨k, hk⟩
-    have := (hk.trans hq).length_le
-    simp at this
-    omega
-  · rename_i htemp
-    simp only [htemp, Bool.false_eq_true, ↓reduceIte] at h
-    intro q hq hne hnil
-    refine keep q ?_ (h q hq hne hnil)
-    simp only [InHead, htemp, Bool.false_eq_true, ↓reduceIte]
-    intro hk
-    exact hne (prefix_antisymm hq hk)
+  refine ⟨fun q hq hne hnil => keep q ?_ (h.1 q hq hne hnil), fun q hq hne => keep q ?_ (h.2 q hq hne)⟩
+  · rintro (hk | ⟨k, hk⟩)
+    · exact hne (prefix_antisymm hq hk)
+    · exact hap.1 ((List.prefix_append _ _).trans (hk.trans hq))
+  · rintro (hk | ⟨k, hk⟩)
+    · exact hap.2 (hk.trans hq)
+    · have := (hk.trans hq).length_le
+      simp at this
+      omega
 
 theorem below_tail_dirname {B p : P} {clean : Bool} (h : B ++ tailSegs clean <+: p) : B <+: dirname p := by
   obtain ⟨t, rfl⟩ := h
@@ -182,44 +179,88 @@ theorem below_tail_dirname {B p : P} {clean : Bool} (h : B ++ tailSegs clean <+:
   exact List.prefix_append _ _
 
 theorem close_inside (c : Cfg) (s : St) (clear : Bool) (hi : Inv c s) :
-    Touched s.fs (close c s clear).1.fs (InHead c) ∧ Inv c (close c s clear).1 := by
+    Touched s.fs (close c s clear).1.fs (InHead c) ∧ Inv c (close c s clear).1 ∧
+      (close c s clear).1.path = s.path ∧ (close c s clear).1.temp = s.temp ∧ (close c s clear).1.tmpN = s.tmpN := by
   unfold close
   split
   · cases hp : s.path with
-    | none => simp only [clearPath]; exact ⟨Touched.refl _ _, hi.1, by simp [hp]⟩
+    | none => simp only [clearPath]; exact ⟨Touched.refl _ _, ⟨hi.1, hi.2.1, hi.2.2.1, by simp [hp]⟩, by simp [hp], by simp, by simp⟩
     | some p =>
       split
       · rename_i fs' hc
-        have hin := hi.2 p hp
+        have hin := hi.2.2.2 p hp
         have t : Touched s.fs fs' (InHead c) :=
-          (clear_within_path c s.fs fs' p hc).2.mono (fun x hx => by
+          (clear_within_path (cur c s) s.fs fs' p hc).2.mono (fun x hx => by
             split at hx
             · exact hin.mono hx
             · exact (hin.mono (dirname_prefix p)).mono hx)
-        exact ⟨t, base_preserved c _ _ t hi.1, fun q hq => hi.2 q (by rw [hp]; exact hq)⟩
-      · exact ⟨Touched.refl _ _, hi⟩
-  · exact ⟨Touched.refl _ _, hi⟩
+        have hb := base_preserved c _ _ t hi.1 ⟨hi.2.1, hi.2.2.1⟩
+        exact ⟨t, ⟨hi.1, hb.1, hb.2, fun q hq => hi.2.2.2 q (by rw [hp]; exact hq)⟩, rfl, rfl, rfl⟩
+      · exact ⟨Touched.refl _ _, hi, hp, rfl, rfl⟩
+  · exact ⟨Touched.refl _ _, hi, rfl, rfl, rfl⟩
 
-theorem remake_inside (c : Cfg) (clean : Bool) (fs : FS) (n : Nat)
-    (hb : if c.temp then ∀ q, q <+: c.tempHead → q ≠ [] → kind? fs q ≠ none else HeadOk fs c.head) :
-    Touched fs (remake c clean fs n).1 (InHead c) ∧
-    ∀ p, (remake c clean fs n).2.2 = .ok p → InHead c (dirname p) := by
-  by_cases ht : c.temp = true
-  · simp only [ht, ↓reduceIte] at hb
-    obtain ⟨t, hp⟩ := remake_inside_tempdir c clean fs n ht hb
-    refine ⟨t.mono (fun x hx => ?_), fun p h => ?_⟩
-    · simp only [InHead, ht, ↓reduceIte]; exact ⟨n, hx⟩
-    · simp only [InHead, ht, ↓reduceIte]; exact ⟨n, below_tail_dirname (hp p h)⟩
+/-- `remake` under whatever settings are in force touches only the inside of a head -/
+theorem remake_inside (c : Cfg) (c' : Cfg) (hh : c'.head = c.head) (hth : c'.tempHead = c.tempHead)
+    (clean : Bool) (fs : FS) (n : Nat)
+    (hb : HeadOk fs c.head ∧ (∀ q, q <+: c.tempHead → q ≠ [] → kind? fs q ≠ none)) :
+    Touched fs (remake c' clean fs n).1 (InHead c) ∧
+    ∀ p, (remake c' clean fs n).2.2 = .ok p → InHead c (dirname p) := by
+  by_cases ht : c'.temp = true
+  · obtain ⟨t, hp⟩ := remake_inside_tempdir c' clean fs n ht (hth ▸ hb.2)
+    rw [hth] at t hp
+    exact ⟨t.mono (fun x hx => Or.inr ⟨n, hx⟩), fun p h => Or.inr ⟨n, below_tail_dirname (hp p h)⟩⟩
   · simp only [Bool.not_eq_true] at ht
-    simp only [ht, Bool.false_eq_true, ↓reduceIte] at hb
-    obtain ⟨t, hp⟩ := remake_inside_head c clean fs n ht hb
-    refine ⟨t.mono (fun x hx => ?_), fun p h => ?_⟩
-    · simp only [InHead, ht, Bool.false_eq_true, ↓reduceIte]; exact hx
-    · simp only [InHead, ht, Bool.false_eq_true, ↓reduceIte]; exact below_tail_dirname (hp p h)
+    obtain ⟨t, hp⟩ := remake_inside_head c' clean fs n ht (hh ▸ hb.1)
+    rw [hh] at t hp
+    exact ⟨t.mono (fun x hx => Or.inl hx), fun p h => Or.inl (below_tail_dirname (hp p h))⟩
 
-theorem reopen_inside (c : Cfg) (s : St) (clear reuse clean : Bool) (hi : Inv c s) :
-    Touched s.fs (reopen c s clear reuse clean).1.fs (InHead c) ∧ Inv c (reopen c s clear reuse clean).1 := by
-  obtain ⟨t1, i1⟩ := close_inside c s clear hi
+theorem reopenTail_inside (c : Cfg) (s2 : St) (reuse clean : Bool) (i2 : Inv c s2) :
+    Touched s2.fs (reopenTail c s2 reuse clean).1.fs (InHead c) ∧ Inv c (reopenTail c s2 reuse clean).1 := by
+  unfold reopenTail
+  have hrem : Touched s2.fs
+      (match remake (cur c s2) clean s2.fs s2.tmpN with
+        | (fs, n, Except.ok p) => (({ s2 with fs := fs, tmpN := n, path := some p } : St), (Except.ok () : Except Exn Unit))
+        | (fs, n, Except.error e) => ({ s2 with fs := fs, tmpN := n }, Except.error e)).1.fs (InHead c) ∧
+      Inv c (match remake (cur c s2) clean s2.fs s2.tmpN with
+        | (fs, n, Except.ok p) => (({ s2 with fs := fs, tmpN := n, path := some p } : St), (Except.ok () : Except Exn Unit))
+        | (fs, n, Except.error e) => ({ s2 with fs := fs, tmpN := n }, Except.error e)).1 := by
+    obtain ⟨t2, hp2⟩ := remake_inside c (cur c s2) rfl rfl clean s2.fs s2.tmpN ⟨i2.2.1, i2.2.2.1⟩
+    generalize remake (cur c s2) clean s2.fs s2.tmpN = rr at t2 hp2
+    obtain ⟨fs2, n2, r2⟩ := rr
+    have hb := base_preserved c _ _ t2 i2.1 ⟨i2.2.1, i2.2.2.1⟩
+    cases r2 with
+    | ok p =>
+      simp only at t2 hp2 hb ⊢
+      exact ⟨t2, i2.1, hb.1, hb.2, fun q hq => by
+        simp only [Option.some.injEq] at hq; subst hq; exact hp2 p rfl⟩
+    | error e =>
+      simp only at t2 hb ⊢
+      exact ⟨t2, i2.1, hb.1, hb.2, fun q hq => i2.2.2.2 q hq⟩
+  cases hp : s2.path with
+  | none =>
+    simp only [hp, Bool.not_false, ↓reduceIte] at hrem ⊢
+    exact hrem
+  | some p =>
+    simp only [hp] at hrem ⊢
+    cases hk : (fexists s2.fs p && reuse) with
+    | false => simp only [Bool.not_false, ↓reduceIte]; exact hrem
+    | true =>
+      simp only [Bool.not_true, Bool.false_eq_true, ↓reduceIte]
+      split
+      · cases ho : ocfn s2.fs p with
+        | error e => exact ⟨Touched.refl _ _, i2⟩
+        | ok fs2 =>
+          simp only
+          have t2 : Touched s2.fs fs2 (InHead c) :=
+            ocfn_touched _ _ _ _ ((i2.2.2.2 p hp).mono (dirname_prefix p)) ho
+          have hb := base_preserved c _ _ t2 i2.1 ⟨i2.2.1, i2.2.2.1⟩
+          exact ⟨t2, i2.1, hb.1, hb.2, fun q hq => i2.2.2.2 q (by rw [hp]; exact hq)⟩
+      · exact ⟨Touched.refl _ _, i2⟩
+
+theorem reopen_inside (c : Cfg) (s : St) (clear reuse clean : Bool) (nt : Option Bool) (nf : Option (List Nat))
+    (hi : Inv c s) :
+    Touched s.fs (reopen c s clear reuse clean nt nf).1.fs (InHead c) ∧ Inv c (reopen c s clear reuse clean nt nf).1 := by
+  obtain ⟨t1, i1, -, -, -⟩ := close_inside c s clear hi
   unfold reopen
   generalize close c s clear = r at t1 i1
   obtain ⟨s1, r1⟩ := r
@@ -227,48 +268,14 @@ theorem reopen_inside (c : Cfg) (s : St) (clear reuse clean : Bool) (hi : Inv c 
   | error e => exact ⟨t1, i1⟩
   | ok u =>
     simp only at t1 i1 ⊢
-    -- the branch that calls `remake`
-    have hrem : Touched s.fs
-        (match remake c clean s1.fs s1.tmpN with
-          | (fs, n, Except.ok p) => (({ fs := fs, tmpN := n, path := some p } : St), (Except.ok () : Except Exn Unit))
-          | (fs, n, Except.error e) => ({ fs := fs, tmpN := n, path := s1.path }, Except.error e)).1.fs (InHead c) ∧
-        Inv c (match remake c clean s1.fs s1.tmpN with
-          | (fs, n, Except.ok p) => (({ fs := fs, tmpN := n, path := some p } : St), (Except.ok () : Except Exn Unit))
-          | (fs, n, Except.error e) => ({ fs := fs, tmpN := n, path := s1.path }, Except.error e)).1 := by
-      obtain ⟨t2, hp2⟩ := remake_inside c clean s1.fs s1.tmpN i1.1
-      generalize remake c clean s1.fs s1.tmpN = rr at t2 hp2
-      obtain ⟨fs2, n2, r2⟩ := rr
-      cases r2 with
-      | ok p =>
-        simp only at t2 hp2 ⊢
-        exact ⟨t1.trans t2, base_preserved c _ _ t2 i1.1, fun q hq => by
-          simp only [Option.some.injEq] at hq; subst hq; exact hp2 p rfl⟩
-      | error e =>
-        simp only at t2 ⊢
-        exact ⟨t1.trans t2, base_preserved c _ _ t2 i1.1, fun q hq => i1.2 q hq⟩
-    cases hp : s1.path with
-    | none =>
-      simp only [hp, Bool.not_false, ↓reduceIte] at hrem ⊢
-      exact hrem
-    | some p =>
-      simp only [hp] at hrem ⊢
-      cases hk : (fexists s1.fs p && reuse) with
-      | false => simp only [Bool.not_false, ↓reduceIte]; exact hrem
-      | true =>
-        simp only [Bool.not_true, Bool.false_eq_true, ↓reduceIte]
-        split
-        · cases ho : ocfn s1.fs p with
-          | error e => exact ⟨t1, i1⟩
-          | ok fs2 =>
-            simp only
-            have t2 : Touched s1.fs fs2 (InHead c) :=
-              ocfn_touched _ _ _ _ ((i1.2 p hp).mono (dirname_prefix p)) ho
-            exact ⟨t1.trans t2, base_preserved c _ _ t2 i1.1, fun q hq => i1.2 q (by rw [hp]; exact hq)⟩
-        · exact ⟨t1, i1⟩
+    have i2 : Inv c (takeOver s1 nt nf) := i1
+    obtain ⟨t2, i3⟩ := reopenTail_inside c (takeOver s1 nt nf) reuse clean i2
+    exact ⟨t1.trans t2, i3⟩
 
-/-- C29 for EVERY history: whatever sequence of `reopen(clear, reuse, clean)` / `close(clear)` calls is made on a
-Filer with whatever name, base, extension and flags, the filesystem afterwards differs from the one before only in
-entries inside the Filer's own head directory (inside its `mkdtemp` directories when temp) -/
+/-- C29 for EVERY history: whatever sequence of `reopen(temp, fext, clear, reuse, clean)` / `close(clear)` calls is
+made on a Filer with whatever name, base, extension and flags — also when the calls switch it between persistent and
+temporary — the filesystem afterwards differs from the one before only in entries inside the Filer's own head
+directory or inside its own `mkdtemp` directories -/
 theorem history_inside_head (c : Cfg) (steps : List Step) (s : St) (hi : Inv c s) :
     Touched s.fs (runAll c s steps).fs (InHead c) ∧ Inv c (runAll c s steps) := by
   induction steps generalizing s with
@@ -276,16 +283,72 @@ theorem history_inside_head (c : Cfg) (steps : List Step) (s : St) (hi : Inv c s
   | cons st rest ih =>
     have h1 : Touched s.fs (step c s st).1.fs (InHead c) ∧ Inv c (step c s st).1 := by
       cases st with
-      | reopen a b cl => exact reopen_inside c s a b cl hi
-      | close a => exact close_inside c s a hi
+      | reopen a b cl t f => exact reopen_inside c s a b cl t f hi
+      | close a => exact ⟨(close_inside c s a hi).1, (close_inside c s a hi).2.1⟩
     obtain ⟨t2, i2⟩ := ih _ h1.2
     exact ⟨h1.1.trans t2, i2⟩
 
 /-- … in particular from a fresh object (the constructor is the first `reopen`, `.path` not yet set) -/
 theorem fresh_filer_history_inside_head (c : Cfg) (fs : FS) (steps : List Step)
-    (hb : if c.temp then ∀ q, q <+: c.tempHead → q ≠ [] → kind? fs q ≠ none else HeadOk fs c.head) :
-    Touched fs (runAll c ⟨fs, 0, none⟩ steps).fs (InHead c) :=
-  (history_inside_head c steps ⟨fs, 0, none⟩ ⟨hb, fun p h => by cases h⟩).1
+    (hap : ¬ c.tempHead <+: c.head ∧ ¬ c.head <+: c.tempHead)
+    (hb : HeadOk fs c.head) (hbt : ∀ q, q <+: c.tempHead → q ≠ [] → kind? fs q ≠ none) :
+    Touched fs (runAll c (fresh c fs) steps).fs (InHead c) :=
+  (history_inside_head c steps (fresh c fs) ⟨hap, hb, hbt, fun p h => by cases h⟩).1
+
+/-- C29.2 across a reconfiguring `reopen`: a PERSISTENT Filer that is reopened as a temporary one
+(`reopen(temp=True, clear=…)`) clears its old path under the OLD setting — it removes nothing that is not at or
+below its own old path (the directory holding it and everything else in there stay), and otherwise only its new
+`mkdtemp` directory changes -/
+theorem reopen_to_temp_keeps_siblings (c : Cfg) (s : St) (p : P) (clear reuse clean : Bool) (nf : Option (List Nat))
+    (hi : Inv c s) (htemp : s.temp = false) (hp : s.path = some p) :
+    Touched s.fs (reopen c s clear reuse clean (some true) nf).1.fs
+      (fun x => p <+: x ∨ c.tempHead ++ [tmpSeg s.tmpN] <+: x) := by
+  have hc : Touched s.fs (close c s clear).1.fs (fun x => p <+: x ∨ c.tempHead ++ [tmpSeg s.tmpN] <+: x) := by
+    unfold close
+    split
+    · rw [hp]
+      split
+      · rename_i fs' hcl
+        refine (clear_within_path (cur c s) s.fs fs' p hcl).2.mono (fun x hx => Or.inl ?_)
+        simpa [cur, htemp] using hx
+      · exact Touched.refl _ _
+    · exact Touched.refl _ _
+  obtain ⟨-, i1, e1, -, e3⟩ := close_inside c s clear hi
+  unfold reopen
+  generalize close c s clear = r at hc i1 e1 e3
+  obtain ⟨s1, r1⟩ := r
+  cases r1 with
+  | error e => exact hc
+  | ok u =>
+    simp only at hc i1 e1 e3 ⊢
+    refine hc.trans ?_
+    have hp1 : (takeOver s1 (some true) nf).path = some p := by simp [takeOver, e1, hp]
+    have ht1 : (takeOver s1 (some true) nf).temp = true := by simp [takeOver]
+    have hn1 : (takeOver s1 (some true) nf).tmpN = s.tmpN := by simp [takeOver, e3]
+    have hf1 : (takeOver s1 (some true) nf).fs = s1.fs := rfl
+    generalize takeOver s1 (some true) nf = s2 at hp1 ht1 hn1 hf1
+    rw [← hf1]
+    unfold reopenTail
+    simp only [hp1]
+    cases hk : (fexists s2.fs p && reuse) with
+    | true =>
+      simp only [Bool.not_true, Bool.false_eq_true, ↓reduceIte]
+      split
+      · cases ho : ocfn s2.fs p with
+        | error e => exact Touched.refl _ _
+        | ok fs2 => exact ocfn_touched _ _ _ _ (Or.inl (List.prefix_refl _)) ho
+      · exact Touched.refl _ _
+    | false =>
+      simp only [Bool.not_false, ↓reduceIte]
+      have ht := (remake_inside_tempdir (cur c s2) clean s2.fs s2.tmpN (by simp [cur, ht1])
+        (by rw [hf1]; exact i1.2.2.1)).1
+      rw [hn1] at ht
+      have ht' := ht.mono (Q := fun x => c.tempHead ++ [tmpSeg s.tmpN] <+: x)
+        (R := fun x => p <+: x ∨ c.tempHead ++ [tmpSeg s.tmpN] <+: x) (fun x hx => Or.inr hx)
+      rw [hn1]
+      generalize remake (cur c s2) clean s2.fs s.tmpN = rr at ht'
+      obtain ⟨fs2, n2, r2⟩ := rr
+      cases r2 <;> exact ht'
 
 /-! ### concrete witnesses and non-vacuity (tests on literals; the unbounded claims are the theorems above) -/
 
@@ -296,10 +359,24 @@ def exMain : List Nat := [109]                                      -- "m"
 
 /-- F44 / C29-K1: temp Filer, `close(clear=True)`: the file and its directory go, the `mkdtemp` directory stays -/
 theorem temp_clear_leaves_tempdir :
-    let s1 := (reopen (exCfg true true exMain) ⟨exFs, 0, none⟩ false false false).1
+    let s1 := (reopen (exCfg true true exMain) (fresh (exCfg true true exMain) exFs) false false false none none).1
     let s2 := (close (exCfg true true exMain) s1 true).1
     s1.path = some [[116], tmpSeg 0, [104, 105, 111], [109, 46, 116]] ∧
     ([[116], tmpSeg 0], Kind.dir) ∈ s2.fs ∧ kind? s2.fs [[116], tmpSeg 0, [104, 105, 111]] = none := by
+  decide
+
+/-- C29-K2: a persistent filed Filer, `reopen(reuse=True, temp=True)` keeps the old path but takes over `temp`;
+the later `close(clear=True)` then applies the temp rule and removes the whole holding directory with another
+Filer's file in it.  (With `reuse=False` the same call clears under the OLD setting and the sibling survives:
+`reopen_to_temp_keeps_siblings`.) -/
+theorem reuse_with_temp_flip_clears_holding_dir :
+    let c := exCfg false true exMain
+    let fs0 : FS := exFs ++ [([[104], [104, 105, 111]], .dir), ([[104], [104, 105, 111], [107]], .file)]
+    let s1 := (reopen c (fresh c fs0) false false false none none).1
+    let s2 := (reopen c s1 false true false (some true) none).1
+    let s3 := (close c s2 true).1
+    s2.path = s1.path ∧ s2.temp = true ∧ ([[104], [104, 105, 111], [107]], Kind.file) ∈ s2.fs ∧
+      kind? s3.fs [[104], [104, 105, 111], [107]] = none := by
   decide
 
 /-- `name = "../../x"` is rejected -/
